@@ -88,6 +88,12 @@ type DrawParams struct {
 	// Anonymous: now and then P&T compositions start with anonymous templates
 	// and are migrated to named ones later.
 	Anonymous bool
+	// RepeatedResults: now and then a step warns with the very text the next
+	// step's fatal result will carry (a later step escalating an earlier warning).
+	RepeatedResults bool
+	// RequireOnce: requirement programs include one that asks for a resource
+	// until it is given it and for nothing afterwards (never stabilises).
+	RequireOnce bool
 	// Contract: workloads for the function-contract check (C04): up to four
 	// steps, context rewrites, credentials, more requirement programs.
 	Contract bool
@@ -146,6 +152,9 @@ func Draw(t *sim.Tape, p DrawParams) *Workload {
 				st.Ops = append(st.Ops, simfn.Op{"op": "nameFrom", "field": "spec.size"})
 			}
 		}
+		if p.Fatal && p.RepeatedResults && t.Next(3) == 0 {
+			st.Ops = append(st.Ops, simfn.Op{"op": "result", "severity": "warning", "message": fmt.Sprintf("scripted fatal at s%d", i+t.Next(2))})
+		}
 		if p.Fatal {
 			st.Ops = append(st.Ops, simfn.Op{"op": "fatalIf", "field": "spec.fatalStep", "equals": st.Name})
 		}
@@ -182,6 +191,9 @@ func Draw(t *sim.Tape, p DrawParams) *Workload {
 			case 3:
 				st.Ops = append(st.Ops, simfn.Op{"op": "require", "mode": "flip"})
 			}
+		}
+		if p.RequireOnce && t.Next(6) == 0 {
+			st.Ops = append(st.Ops, simfn.Op{"op": "require", "mode": "once"})
 		}
 		if p.Contract {
 			switch t.Next(8) {
